@@ -204,7 +204,7 @@ fn exec_in_child(plan: &Plan, tag: &str, timeout: Duration) -> Option<RunResult>
     let _ = std::fs::create_dir_all(&dir);
     let file = dir.join(format!("cand-{}-{}.json", std::process::id(), tag));
     std::fs::write(&file, serde_json::to_string(plan).ok()?).ok()?;
-    let exe = std::env::current_exe().ok()?;
+    let exe = if matches!(plan, Plan::Api(_)) { api_exe() } else { std::env::current_exe().ok()? };
     let mut child = Command::new(exe).arg("exec-plan").arg(&file).stdout(Stdio::piped()).stderr(Stdio::null()).spawn().ok()?;
     let out = child.stdout.take()?;
     let (tx, rx) = mpsc::channel();
@@ -287,8 +287,15 @@ struct Agg {
     run_hashes: BTreeMap<u64, u64>,
 }
 
+fn api_exe() -> PathBuf {
+    verif_dir().join("target_api").join("release").join("sim_api")
+}
+
 fn run_workers(def: &CheckDef, tier: &str, base: u64, runs: u64, jobs: u64) -> Result<Agg, String> {
-    let exe = std::env::current_exe().map_err(|e| e.to_string())?;
+    let exe = if def.sim == "api" { api_exe() } else { std::env::current_exe().map_err(|e| e.to_string())? };
+    if !exe.exists() {
+        return Err(format!("worker binary {} is missing (run ./run setup)", exe.display()));
+    }
     let (tx, rx) = mpsc::channel::<(u64, Option<RunResult>, bool)>();
     let per = (runs + jobs - 1) / jobs;
     let mut slices = Vec::new();
